@@ -677,6 +677,15 @@ def shutdown (s : Sock) (rd wr : Bool) : M (Sock × Outcome) := do
       return (s, failOut 0 e)
     else return (if rd && wr then { s with connected := false } else s, { ret := 1 })
 
+/-- the two `pboolean` (= `int`) arguments of `p_socket_shutdown` as the code reads them: `== FALSE` for the early
+    return and `== TRUE` (that is `== 1`) for the direction and for clearing `connected` — a non-zero value other
+    than 1 is neither FALSE nor TRUE there.  Result: the (read, write) pair `shutdown` above is run with. -/
+def shutdownArgs (rd wr : Int) : Bool × Bool :=
+  if rd = 0 ∧ wr = 0 then (false, false)
+  else if rd = 1 ∧ wr = 1 then (true, true)
+  else if rd = 1 then (true, false)
+  else (false, true)
+
 /-- `p_socket_set_buffer_size` -/
 def setBufferSize (s : Sock) (dir : Int) (size : Nat) : M Outcome := do
   match check s with
